@@ -573,4 +573,18 @@ example : depDistance 0 [] (.var 0) (.bin .sub (.var 0) (.lit 1)) = some 1 := by
 example : depDistance 0 [(8, 0), (9, 1)] (.bin .add (.var 0) (.var 8)) (.bin .add (.var 0) (.var 8)) = some 0 := by
   decide
 
+-- `never_equal`: only a non-zero INTEGER difference separates two loop-variable-free subscripts; a rational one
+-- (`n/2` vs `(n+1)/2`: -1/2 for SymPy, but equal in Fortran for even `n`) does not (n has id 7)
+example : independent0 (.bin .div (.var 7) (.lit 2)) (.bin .div (.bin .add (.var 7) (.lit 1)) (.lit 2)) = false := by
+  decide
+example : independent0 (.bin .add (.bin .div (.var 7) (.lit 2)) (.lit 1)) (.bin .div (.var 7) (.lit 2)) = true := by
+  decide
+example : independent0 (.var 7) (.bin .sub (.var 7) (.lit 1)) = true := by decide
+example : independent0 (.var 7) (.var 8) = false := by decide
+-- `do i: m(n/2, i) = m((n+1)/2, i-1) + 1` (m has id 6) is a dependency (202) for the model, as for the real code
+example : messages [] 0 (.lit 2) (.lit 5) (.lit 1)
+    (.store2 6 (.bin .div (.var 7) (.lit 2)) (.var 0)
+      (.bin .add (.idx2 6 (.bin .div (.bin .add (.var 7) (.lit 1)) (.lit 2)) (.bin .sub (.var 0) (.lit 1))) (.lit 1)))
+    = [(202, 6)] := by decide
+
 end C08
